@@ -168,7 +168,7 @@ Definition run_parse (l : list Z) : list Z :=
       match take_jv (length r) r with
       | Some (v, []) =>
           match parse (depth v) (mk_opts bits s) (2 ^ s) v with
-          | PErr c => [c]
+          | PErr c => if c =? E_Unmodelled then [-8] else [c]    (* [-8]: gjson behaviour the model does not define (a string radius) *)
           | POk o => 0 :: [1; 1; 1; 1; 1; 1; (if has_circle o then 2 else 1)] ++ enc_tree o ++ -7 :: emit (fmt_dyadic s) o ++ -7 :: top_members o
           end
       | _ => [-1]
